@@ -17,7 +17,7 @@ pub fn prop() -> Prop {
                below -len to above len and the i32 extremes, key sets drawn from the document's keys (subsets, \
                supersets, disjoint), key paths by random walk into and past scalars, nulls planted by the tree \
                generator at every depth, new values of every kind, build_array from 0-6 parts, build_object \
-               from 0-6 (key, part) pairs with distinct keys in arbitrary order. Each editor's appended bytes \
+               from 0-6 or 30-70 (key, part) pairs in arbitrary order, keys distinct or (minority) repeated with the last value winning. Each editor's appended bytes \
                are compared with enc(tree edit) and its Result with the documented error; on error the buffer \
                (pre-filled) must be unchanged. Non-trivial = some editor changed the document or returned a \
                documented error, and the document has depth >= 2 or more than one child.",
@@ -57,7 +57,9 @@ pub fn arb_case(p: TreeParams) -> BoxedStrategy<Case> {
                 // many parts with distinct keys in arbitrary order (a sort or a merge has to handle them)
                 1 => (vec(arb_scalar(false), 30..70), any::<u16>()).prop_map(|(v, r)| {
                     let n = v.len();
-                    let mut out: Vec<(String, M)> = v.into_iter().enumerate().map(|(i, m)| (format!("k{:03}", (i * 37 + r as usize) % 997), m)).collect();
+                    // r % 3 == 0: keys repeat (modulus smaller than the number of parts)
+                    let modulus = if r % 3 == 0 { 23 } else { 997 };
+                    let mut out: Vec<(String, M)> = v.into_iter().enumerate().map(|(i, m)| (format!("k{:03}", (i * 37 + r as usize) % modulus), m)).collect();
                     out.rotate_left(r as usize % n.max(1));
                     out
                 }),
@@ -87,9 +89,11 @@ pub fn arb_case(p: TreeParams) -> BoxedStrategy<Case> {
             let tk = top_keys(&doc);
             let keys = ksel.into_iter().map(|(s, m, e)| derive_name(&tk, s, m, &e)).collect();
             let path = derive_path(&doc, &steps, &pextra);
-            // distinct keys, caller order kept
+            // caller order kept; a repeated key is allowed in a minority of cases (the last
+            // value wins, as for duplicate keys in JSON text and for concat)
             let mut seen = BTreeSet::new();
-            let obj_parts = op.into_iter().filter(|(k, _)| seen.insert(k.clone())).collect();
+            let keep_dups = psel % 5 == 0;
+            let obj_parts = op.into_iter().filter(|(k, _)| seen.insert(k.clone()) || keep_dups).collect();
             Case { doc, doc2, pos, name, keys, path, new_val, update, parts, obj_parts }
         })
         .boxed()
